@@ -13,11 +13,10 @@ import (
 func allGroups(r *sink) []group {
 	// every QueryRange/QueryInstant call parses the query with a freshly built participle parser (1-2 ms and
 	// ~850 kB of garbage per call), so the row bound is what the budget allows on a busy machine:
-	// quick = every structure up to 4 rows on every endpoint; thorough = up to 5 rows on every endpoint and
-	// up to 6 on the streams encoder (the one with the fingerprint-0 sentinel).
+	// quick = every structure up to 4 rows on every endpoint; thorough = up to 6 rows on every endpoint.
 	maxRows, maxRowsStreams := 4, 4
 	if r.Thorough() {
-		maxRows, maxRowsStreams = 5, 6
+		maxRows, maxRowsStreams = 6, 6
 	}
 	r.maxRows = map[string]int{"range_streams": maxRowsStreams, "other_endpoints": maxRows}
 	var gs []group
